@@ -795,6 +795,16 @@ let mon_srv prop case impl =
                     if int_of_string fb <> (min ws nb - 1) * rep + 1 then bad "window-differs-from-the-acknowledged-windowsize"
                   | _ -> ())
                end
+               else if starts_with r.sxfer "dl=" && ends_with r.sxfer "/incomplete" && i = 0 && is_read then begin
+                 (* the download stalled: a first burst other than the acknowledged window (or the whole file) is the reason to name *)
+                 let blk = int_of_n (List.fold_left (fun a o -> if o.o_type = OBlkSize then o.o_val else a) (n_of_int 512) os') in
+                 let ws = int_of_n (List.fold_left (fun a o -> if o.o_type = OWindowSize then o.o_val else a) (n_of_int 1) os') in
+                 match kind_of init (join sdir (convert_file_path name)), String.split_on_char '/' (String.sub r.sxfer 3 (String.length r.sxfer - 3)) with
+                 | FkFile sz, [_; _; _; fb; _; _; _] ->
+                   let nb = int_of_n sz / (max 1 blk) + 1 in
+                   if int_of_string fb <> (min ws nb - 1) * rep + 1 then bad "window-differs-from-the-acknowledged-windowsize"
+                 | _ -> ()
+               end
              | _ -> bad "undecodable-oack"
            end else if starts_with h "0003" && starts_with r.sxfer "dl=" && ends_with r.sxfer "/done" then begin
              (* RFC 1350 defaults *)
